@@ -37,6 +37,20 @@ pub fn seeds() -> Vec<String> {
         "<blockquote><ul><li>a<ol start=99><li>b<li>c</ol></ul></blockquote>",
         "<h1>hh <a href=\"/u\">l</a></h1>",
         "<p>x<sup>12</sup> y<sup>z</sup></p>",
+        // degenerate structures: tables without rows or cells, captions in odd places, lists without items
+        "<p>qa</p><table><caption>qk</caption></table><p>qo</p>",
+        "<table><caption>qk</caption><thead></thead><tbody></tbody></table>",
+        "<table><caption>qk</caption><tr></tr></table>qb",
+        "<table><tr></tr><tr><td>qa</td></tr></table>",
+        "<table><thead><tr><th>qa</th></tr></thead></table>",
+        "<table><tfoot><tr><td>qa</td></tr></tfoot></table>",
+        "<table><tbody></tbody><caption>qa</caption></table>",
+        "<table><caption>qa</caption><caption>qb</caption><tr><td>qc</td></tr></table>",
+        "<table><tr><td>qa</td></tr><caption>qb</caption></table>",
+        "<ul></ul>qa<ol></ol>qb<dl></dl>qc",
+        "<ul><li></li></ul>qa<dl><dt></dt><dd></dd></dl>qb",
+        "<p>x<sup>\u{b2}</sup> y<sup>\u{ff11}\u{ff12}</sup> z<sup>1\u{bd}</sup></p>",
+        "<p>caf<em>e</em>\u{301} a<strong>\u{301}</strong>b</p>",
         "<p><del>a中b</del> <s>c</s></p>",
         "<p><img src=/s alt=\"al t\"><img alt=noalt><img src=/s></p>",
         "<dl><dt>t<dd>d<dd><p>e</dl>",
